@@ -710,7 +710,12 @@ Proof.
   { unfold plot_yunit, resolve, chosen. rewrite Uy. cbn [fst snd]. change (plot_info cfg "yunit") with (s_yunit cfg).
     rewrite (flat_map_ext_eq _ _ (xy_attr "yunit") yunit_of); [reflexivity|]. intros []; reflexivity. }
   split; [exact X|]. split; [exact Y|]. split; [exact XU|]. split; [exact YU|].
-  split; reflexivity.
+  (* whatever way the generated expressions are written (name ++ (if unit then [unit] else ""), or
+     if unit then name[unit] else name), they are the rule [label] *)
+  assert (L : forall xn yn xu yu, gen_xlabel xn yn xu yu = label xn xu /\ gen_ylabel xn yn xu yu = label yn yu).
+  { intros xn yn xu yu. unfold gen_xlabel, gen_ylabel, label, format1.
+    destruct xu, yu; simpl; rewrite ?app_nil_r; split; reflexivity. }
+  split; [unfold xlabel; apply L|unfold ylabel; apply L].
 Qed.
 
 (** a plot of one named data set, nothing overridden: the label is that data set's name and unit *)
